@@ -468,7 +468,17 @@ func c06ExtremeTokens() [][]byte {
 		o := refbin.VarInt(nil, int64(h&(1<<62-1)), false, 0)
 		add(append(append([]byte{0x6E}, vu(uint64(len(o)+2))...), append(o, 0x0F, 0xE5)...)...)
 	}
-	// max_id / version extremes inside a symbol table with an import
+	// declared lengths in the last few dozen values below 2^64 (and below 2^63):
+	// position + length wraps around for some of them and not for others
+	for d := uint64(0); d <= 40; d++ {
+		for _, h := range []uint64{^uint64(0) - d, 1<<63 - 1 - d, 1<<63 + d} {
+			for _, tag := range []byte{0x8E, 0xAE, 0xBE, 0xCE, 0xDE, 0xEE} {
+				add(append([]byte{tag}, vu(h)...)...)
+				add(append(append([]byte{tag}, vu(h)...), 0x20, 0x20)...)
+			}
+			add(append(append([]byte{0xD1}, vu(h)...), 0x84, 0x20)...)
+		}
+	}
 	return out
 }
 
@@ -690,7 +700,7 @@ func TestC06(t *testing.T) {
 
 func init() {
 	Describe("C06",
-		"cases: (program, input) with input from: symbol-table structs with hostile values (typed nulls of every type, huge / negative ints, wrong types, duplicates, annotations) in every slot incl. import structs, in text and binary; complete binary values with extreme lengths / IDs / exponents / years / offsets (2^20 .. 2^64-1), optionally inside containers; extreme text (huge $n, exponents, 3000-digit numbers, 20000-deep nesting, 30 KB comments); the C07 edit catalogue sampled on valid documents; splices; random bytes; valid documents (calibration). Program: full traversal with every accessor, a random navigation program of 1-60 calls issued regardless of state (after errors, at end of stream, wrong type), Decoder.Decode until error, Unmarshal into one of 32 target types, Decoder.DecodeTo repeatedly. Enumerated: every byte string of length <= 2, bare and behind a version marker (131 586 inputs x 2 programs), every extreme token x 4 wrappers x 5 programs. Non-trivial: input longer than 2 bytes. Distinct by digest(program, argument, input).",
+		"cases: (program, input) with input from: symbol-table structs with hostile values (typed nulls of every type, huge / negative ints, wrong types, duplicates, annotations) in every slot incl. import structs, in text and binary; complete binary values with extreme lengths / IDs / exponents / years / offsets (2^20 .. 2^64-1, every declared length within 40 of 2^63 and of 2^64), optionally inside containers; extreme text (huge $n, exponents, 3000-digit numbers, 20000-deep nesting, 30 KB comments); the C07 edit catalogue sampled on valid documents; splices; random bytes; valid documents (calibration). Program: full traversal with every accessor, a random navigation program of 1-60 calls issued regardless of state (after errors, at end of stream, wrong type), Decoder.Decode until error, Unmarshal into one of 32 target types, Decoder.DecodeTo repeatedly. Enumerated: every byte string of length <= 2, bare and behind a version marker (131 586 inputs x 2 programs), every extreme token x 4 wrappers x 5 programs. Non-trivial: input longer than 2 bytes. Distinct by digest(program, argument, input).",
 		"oracle (validity, observed from outside): the input runs in an isolated worker process (RLIMIT_AS 3 GiB) that reports recovered panics, bytes allocated (runtime.MemStats.TotalAlloc delta), elapsed time and the number of successful Next / Decode calls; a worker death or a missing answer within 30 s is attributed to the record in flight and confirmed by a solo re-run in a fresh process. Violations: panic; process death; allocation > 1 MiB + 64 x len(input); more than len(input)+16 values produced by a traversal / decode loop; > 10 s for one record, twice in a row",
 		"inputs <= 64 KiB; nesting depth bounded by input size; a timeout that does not reproduce on the solo re-run is ignored (counted as a retry), not reported",
 	)
